@@ -55,10 +55,11 @@ type Cluster struct {
 	Rng   *rand.Rand
 	T0    time.Time
 
-	LatMin, LatMax       time.Duration // message latency
-	NoticeMin, NoticeMax time.Duration // how long after a cut each side learns of it
-	GossipMin, GossipMax time.Duration // membership event propagation
-	CutProb              float64       // probability that sending a message cuts the transport it travels on
+	LatMin, LatMax       time.Duration  // message latency
+	NoticeMin, NoticeMax time.Duration  // how long after a cut each side learns of it
+	GossipMin, GossipMax time.Duration  // membership event propagation
+	OnDeliver            func(f *Frame) // called (simulator context) when a frame has been handed to its receiver's inbox
+	CutProb              float64        // probability that sending a message cuts the transport it travels on
 	MaxCuts              int
 	FaultsOn             bool
 
@@ -789,8 +790,12 @@ func (r *RPC) deliverOne(peer *side) {
 	}
 	g.DelivStep = c.S.StepCnt
 	peer.inbox = append(peer.inbox, g)
+	cb := c.OnDeliver
 	c.mu.Unlock()
 	c.wake(peer)
+	if cb != nil {
+		cb(g)
+	}
 	if g.cutAfter {
 		r.Cut("random, after message")
 	}
